@@ -17,8 +17,15 @@ ACTIONS = ["rename_object", "omit", "omit_fields", "add_fields", "add_object", "
 
 
 def replay(ctx, prefix):
-    rp = json.load(open(ctx.replay))["replay"]
+    full = json.load(open(ctx.replay))
+    rp = full["replay"]
     ctx.build_worker()
+    if isinstance(rp, dict) and rp.get("part") == "library":
+        from checks import library_part
+        for sig, what, rp_, key in library_part.replay_part(ctx, rp):
+            if sig == full["signature"]:
+                ctx.fail(sig, what, rp_, key)
+        return ctx.finish("model_checking", {"evaluations": 1, "distinct_nontrivial": 0}, [])
     f = os.path.join(ctx.scratch, "edge.out")
     edge = {"pre": rp["pre"], "act": rp["act"], "post": rp["expected"]}
     open(f, "w").write('<<"EDGE", %s>>\n' % json.dumps(json.dumps(edge)))
@@ -59,6 +66,12 @@ def run(ctx):
     if vacuous:
         raise core.Inconclusive("vacuous actions (never changed a state): %s" % vacuous)
     binding = tc.selftest_binding(ctx)
+    # the library route (public package): order of transformations across SchemaTransformations() calls
+    from checks import library_part
+    lp = library_part.run_part(ctx)
+    for sig, what, rp_, key in lp["fails"]:
+        ctx.fail(sig, what, rp_, key)
+    out["tlc"] += lp["tlc"]
     mc = [r for r in out["tlc"] if "TransformsMC" in r["cmd"]]
     cov = {
         "states": sum(r["distinct"] for r in out["tlc"]),
@@ -74,6 +87,7 @@ def run(ctx):
         "per_action": per_action, "per_action_nontrivial": per_action_nt,
         "observations_for_other_properties": other,
         "binding_selftest": binding,
+        **lp["coverage"],
         "samples": samples[:3] or [{"note": "no matching non-trivial sample drawn"}],
         "checker_cmd": "tlc TransformsMC (%s); worker c15-replay; tlc TransformsTrace" % ("slice %d/%d" % (ctx.seed % tc.NSLICES, tc.NSLICES) if ctx.quick() else "all slices + simulate depth 3"),
     }
